@@ -50,6 +50,12 @@ TEnd == E.ev = "end" /\ pre = {} /\ Same /\ Keep
 
 \* ---- dialer ----------------------------------------------------------------------------------------
 TCallDial == E.ev = "call.dial" /\ DStart(E.a) /\ UNCHANGED runv /\ Keep
+\* the caller dials an id again after its earlier dial gave up: for the broker this is one more attempt
+\* (gRPC's own re-dial does the same), the model's retry path
+TCallDialAgain == /\ E.ev = "call.dial" /\ dpc[E.a] \notin {"idle", "ok", "wrong"} /\ dres[E.a] = "gaveup"
+                  /\ dres' = [dres EXCEPT ![E.a] = "none"]
+                  /\ UNCHANGED <<now, dpc, datt, ddl, dstart, dmutex, dgen, ackv, avars, smux, cmux, net, runv>>
+                  /\ Keep
 TKnockSent == E.ev = "grpc.knock.sent"
               /\ \/ Confirm(<<"knock", E.a>>)
                  \/ <<"knock", E.a>> \notin pre /\ DKnockSend(E.a) /\ UNCHANGED runv /\ Keep
@@ -133,7 +139,7 @@ AheadOpen == /\ l <= Len(Trace) /\ E.ev \in {"smux.accept.conn", "bcl.unblocked"
 
 TraceNext ==
   \/ /\ l <= Len(Trace) /\ (E.ev = "reset" \/ now = E.t) /\ l' = l + 1
-     /\ (TReset \/ TSkip \/ TEnd \/ TCallDial \/ TKnockSent \/ TLookup \/ TDRunRecv \/ TDRunPark \/ TKnockAck \/ TKnockTimeout
+     /\ (TReset \/ TSkip \/ TEnd \/ TCallDial \/ TCallDialAgain \/ TKnockSent \/ TLookup \/ TDRunRecv \/ TDRunPark \/ TKnockAck \/ TKnockTimeout
          \/ TOpened \/ TTWDeleted \/ TAcceptSlot \/ TRegistered \/ TAcceptListener \/ TAcceptLFK \/ TARunRecv \/ TARunPark
          \/ TLfkTook \/ TSmuxAcceptKnock \/ TCmuxAcceptKnock \/ TLfkAccepted \/ TLfkAcked \/ TSmuxConn \/ TSmuxRoute
          \/ TUnblocked \/ TRetDialOK \/ TRetDialErr)
